@@ -1059,6 +1059,15 @@ impl<T: Send + Clone> Clone for BoundedSyncReceiver<T> {
   fn clone(&self) -> Self {
     let new_tail_val = self.tail.load(Ordering::Acquire);
     let new_consumer_tail = Arc::new(AtomicUsize::new(new_tail_val));
+    if self.closed.load(Ordering::Acquire) {
+      // A closed handle no longer owns a registered cursor: its clone is closed too
+      // (registering a cursor at the stale position would let it read overwritten slots).
+      return Self {
+        shared: Arc::clone(&self.shared),
+        tail: new_consumer_tail,
+        closed: AtomicBool::new(true),
+      };
+    }
     let _lock = self.shared.tails_mutex.lock();
     self
       .shared
@@ -1075,6 +1084,15 @@ impl<T: Send + Clone> Clone for BoundedAsyncReceiver<T> {
   fn clone(&self) -> Self {
     let new_tail_val = self.tail.load(Ordering::Acquire);
     let new_consumer_tail = Arc::new(AtomicUsize::new(new_tail_val));
+    if self.closed.load(Ordering::Acquire) {
+      // A closed handle no longer owns a registered cursor: its clone is closed too
+      // (registering a cursor at the stale position would let it read overwritten slots).
+      return Self {
+        shared: Arc::clone(&self.shared),
+        tail: new_consumer_tail,
+        closed: AtomicBool::new(true),
+      };
+    }
     let _lock = self.shared.tails_mutex.lock();
     self
       .shared
